@@ -41,7 +41,12 @@ def make_struct(cfg, log, block, on_set=None, on_async_set=None, async_=True):
     from geckolib.driver import GeckoStructure, GeckoAsyncStructure
     st = GeckoAsyncStructure(on_set, on_async_set) if async_ else GeckoStructure(on_set)
     st.set_status_block(block)
-    st.build_accessors(packs.table(cfg, st), packs.table(log, st))
+    lt = packs.table(log, st)
+    st.build_accessors(packs.table(cfg, st), lt)
+    # the TABLE's own order of devices and demands (what "table order" means), read from the module, not from what
+    # the structure class made of it
+    st._gv_table_devices = list(lt.all_device_keys)
+    st._gv_table_demands = list(lt.user_demand_keys)
     return st
 
 
